@@ -88,6 +88,9 @@ func FamilyOf(prop string, seed, i uint64) string {
 	if seed&RaceSeedBit != 0 {
 		return "race"
 	}
+	if prop == "C15" && i%40000 == 39999 {
+		return "idcycle" // one request held while 65 540 more are acknowledged one by one
+	}
 	switch prop {
 	case "C10":
 		// engine S contributes the framing rule over every family
@@ -228,6 +231,14 @@ func genReconn(r *Rng, prop string) *Scenario {
 		if r.chance(0.3) {
 			cfg.TimeoutUs = 0 // default: equals the ping interval
 		}
+	}
+	if prop == "C13" && r.chance(0.25) {
+		// single-writer variant: no application requests, the peer answers every
+		// PINGREQ before the Write call returns
+		cfg.EarlyReply = true
+		nreq = 0
+		cfg.Frag, cfg.JitterUs = nil, nil
+		faultFree = true
 	}
 	if prop != "C18" && r.chance(0.15) {
 		cfg.ResponseTimeoutUs = r.pickI(2000, 3000, 5000)
